@@ -90,6 +90,24 @@ FAMILIES["pl"] += [
     ("pl-ct", {"text": "Smithers v. State, 1 Wash. 2d 1 (Wash. 1950). See Smithers at 5; State, supra, at 3; 1 Wash. 2d at 7."}),
     ("pl-ws", {"text": "Smithers v. State,  1 Wash. 2d 1 (Wyo. 1950).\nSee Smithers at 5; State, supra, at 3; 1 Wash. 2d at 7."}),
 ]
+# laws / journals that reporters-db lists under one key for several publishers (distinct editions sharing a short name): the
+# example citations of every such key, pairwise (a memo keyed on the name alone would leak between them); plus reporters
+# whose short name belongs to several editions
+def _multi_source_family():
+    from reporters_db import JOURNALS, LAWS, REPORTERS
+
+    out = []
+    for db in (LAWS, JOURNALS, REPORTERS):
+        for key in sorted(db):
+            exs = [s.get("examples", [])[:1] for s in db[key]]
+            exs = [e[0] for e in exs if e]
+            if len(exs) >= 2 and len(out) < 12:
+                for j, ex in enumerate(exs[:3]):
+                    out.append((f"ms-{len(out)}", {"text": f"See {ex}; and {ex} again."}))
+    return out
+
+
+FAMILIES["ms"] = _multi_source_family()
 ALL_OPS = dict(OPS)
 for _fam in FAMILIES.values():
     ALL_OPS.update(dict(_fam))
